@@ -2,7 +2,12 @@
 use std::fmt;
 use std::num::NonZeroUsize;
 use std::panic::{RefUnwindSafe, UnwindSafe};
+#[cfg(not(may_verif))]
 use std::sync::atomic::{AtomicBool, AtomicUsize, Ordering};
+#[cfg(may_verif)]
+use crate::verif::atomic::{AtomicBool, AtomicUsize};
+#[cfg(may_verif)]
+use std::sync::atomic::Ordering;
 use std::sync::mpsc::{RecvError, SendError, TryRecvError};
 use std::sync::Arc;
 use std::thread::Thread;
